@@ -295,8 +295,24 @@ func (b *c07Bare) EventAttributes(eventType observer.EventType) attributes.Attri
 
 var c07ExplorerKinds = []string{"bareK", "bareS", "bareA", "realK", "realS", "realA"}
 
+// a key whose wanted value is the documented default (StartingTemperature 0, CoolingFactor 1) is LEFT OUT of every
+// second such map: an omitted key means its default, for all three coolants
+var c07OmitCounter int
+
 func c07CoolParams(t0, a float64) parameters.Map {
-	return parameters.Map{"StartingTemperature": t0, "CoolingFactor": a}
+	m := parameters.Map{"StartingTemperature": t0, "CoolingFactor": a}
+	c07OmitCounter++
+	if c07OmitCounter%2 == 0 {
+		if a == 1 {
+			delete(m, "CoolingFactor")
+			c07Stats["cooling_factor_left_to_its_default"]++
+		}
+		if t0 == 0 && 1/t0 > 0 {
+			delete(m, "StartingTemperature")
+			c07Stats["starting_temperature_left_to_its_default"]++
+		}
+	}
+	return m
 }
 
 func c07BuildExplorer(kind string, t0, a float64) explorer.Explorer {
